@@ -103,6 +103,31 @@ fn write_archive<W: Write>(spec: &Spec, sink: W) -> Result<(u64, u64), String> {
 fn measure(spec: &Spec) -> i32 {
     mem::enable_counting();
     let result: Result<(i64, u64, u64, u64), String> = (|| {
+        if spec.op == "write_multiplex" {
+            // two files open at once, one streamed in 256-byte blocks, the other (idle) polled with an empty append after
+            // every block - the memory kept per block must not depend on how many blocks went through
+            let base = mem::live_signed();
+            mem::reset_peak();
+            let mut sink = CountSink(0);
+            let cfg = Cfg::lvl(spec.layers, 1);
+            let mut w = ArchiveWriter::from_config(&mut sink, cfg.writer_config()).map_err(|e| format!("{e:?}"))?;
+            let busy = w.start_file("busy").map_err(|e| format!("{e:?}"))?;
+            let idle = w.start_file("idle").map_err(|e| format!("{e:?}"))?;
+            let total = spec.mib * MIB;
+            let mut off = 0usize;
+            while off < total {
+                let src = GenReader { file: 0, pos: off as u64, end: (off + 256) as u64, e: Entropy::Noise };
+                w.append_file_content(busy, 256, src).map_err(|e| format!("{e:?}"))?;
+                w.append_file_content(idle, 0, &b""[..]).map_err(|e| format!("{e:?}"))?;
+                off += 256;
+            }
+            w.end_file(busy).map_err(|e| format!("{e:?}"))?;
+            w.end_file(idle).map_err(|e| format!("{e:?}"))?;
+            w.finalize().map_err(|e| format!("{e:?}"))?;
+            let peak = mem::peak_signed() - base;
+            drop(w);
+            return Ok((peak, 2, 2, total as u64));
+        }
         if spec.op == "write_short_source" {
             // the source ends after 1 MiB although spec.mib MiB were announced: the call must fail (C09) and must
             // not buy memory in proportion to what is missing
@@ -332,7 +357,7 @@ pub fn run(started: Instant) -> i32 {
     }
     let thorough = infra::thorough();
     let sizes: Vec<usize> = if thorough { vec![4, 16, 64, 256, 1024] } else { vec![4, 16, 64] };
-    let ops = ["write", "write_stream", "write_short_source", "repair_pieces", "linear_extract_pieces", "read_files_pieces", "repair", "repair_cut", "linear_extract", "linear_subset", "read_files"];
+    let ops = ["write", "write_stream", "write_multiplex", "write_short_source", "repair_pieces", "linear_extract_pieces", "read_files_pieces", "repair", "repair_cut", "linear_extract", "linear_subset", "read_files"];
     let mut specs = Vec::new();
     for op in ops {
         for l in L4::ALL {
@@ -346,11 +371,11 @@ pub fn run(started: Instant) -> i32 {
                     if *s == 1024 && (inter || (op != "write" && l != L4::Both)) {
                         continue;
                     }
-                    if (op == "write_stream" || op == "write_short_source" || op.ends_with("_pieces")) && inter {
+                    if (op == "write_stream" || op == "write_multiplex" || op == "write_short_source" || op.ends_with("_pieces")) && inter {
                         continue;
                     }
                     // the variants of an operation: layers none and both in the quick tier
-                    if !thorough && (matches!(op, "write_stream" | "write_short_source" | "repair_cut" | "linear_subset") || op.ends_with("_pieces")) && matches!(l, L4::Compress | L4::Encrypt) {
+                    if !thorough && (matches!(op, "write_stream" | "write_multiplex" | "write_short_source" | "repair_cut" | "linear_subset") || op.ends_with("_pieces")) && matches!(l, L4::Compress | L4::Encrypt) {
                         continue;
                     }
                     // quick tier: every operation on layers none and both; the single-layer combinations for write only
@@ -448,7 +473,7 @@ pub fn run(started: Instant) -> i32 {
         rep,
         Meta {
             level: "exploration",
-            rule: "production-constant build; for each operation {write from a generator to a counting sink (add_file / interleaved appends / io::copy into StreamWriter / a source that ends after 1 MiB of the announced size: the call must fail without allocating in proportion to what is missing), repair of the intact archive and of the archive cut at 3/4, linear extraction of all files and of every other file (none of a single-file archive: the skip path), per-file read} x 4 layer combinations x {1 file, 64 files interleaved in 4 KiB pieces} x size ladder, one process per point with a counting global allocator: peak live heap above the level at the start of the operation must stay under 64 MiB + 512 B x (files + runs), everything must actually stream through, and the peak must not grow between 16 MiB, 64 MiB (and 256 MiB, 1 GiB in thorough) beyond 5 % + 1 MiB + the index growth. The archive bytes read by repair/extract are held outside the measured interval. The streaming commands of the mlar binary (keygen, create from a file and from a pipe, list -vv, cat, both forms of extract, to-tar, convert, repair of the intact and of a cut archive) are run on 128 MiB (thorough 512 MiB) under /usr/bin/time: maximum resident set size under 48 MiB".to_string(),
+            rule: "production-constant build; for each operation {write from a generator to a counting sink (add_file / interleaved appends / io::copy into StreamWriter / two files open at once, one fed in 256-byte blocks, the idle one polled with an empty append after each / a source that ends after 1 MiB of the announced size: the call must fail without allocating in proportion to what is missing), repair of the intact archive and of the archive cut at 3/4, linear extraction of all files and of every other file (none of a single-file archive: the skip path), per-file read} x 4 layer combinations x {1 file, 64 files interleaved in 4 KiB pieces} x size ladder, one process per point with a counting global allocator: peak live heap above the level at the start of the operation must stay under 64 MiB + 512 B x (files + runs), everything must actually stream through, and the peak must not grow between 16 MiB, 64 MiB (and 256 MiB, 1 GiB in thorough) beyond 5 % + 1 MiB + the index growth. The archive bytes read by repair/extract are held outside the measured interval. The streaming commands of the mlar binary (keygen, create from a file and from a pipe, list -vv, cat, both forms of extract, to-tar, convert, repair of the intact and of a cut archive) are run on 128 MiB (thorough 512 MiB) under /usr/bin/time: maximum resident set size under 48 MiB".to_string(),
             exhaustive: false,
             bounds: json!({"size_ladder_mib": sizes, "points": specs.len(), "note": "the size dimension is a ladder, a bound - not 'all sizes'"}),
             assumptions: vec!["noise/pattern contents, brotli level 1".to_string()],
